@@ -137,7 +137,7 @@ func rulesC15(c *Ctx) {
 				okR1, why = false, "the acquired name is not read from a slice element"
 				continue
 			}
-			if keyP(from.X) != keyP(sorted) && from.X != sorted {
+			if keyP(from.X) != keyP(sorted) && from.X != sorted && !builtInOrderFrom(lockF, from.X, sorted) {
 				okR1, why = false, "the acquisition loop walks a different sequence than the sorted one (e.g. ranges over the map)"
 			}
 			if !ascendingIndex(from.Index) {
@@ -220,34 +220,52 @@ func rulesC15(c *Ctx) {
 	if runGo == nil {
 		c.Bad("R4", "runner.(*Runner).runGo", 0, "anchor not found")
 	} else {
-		var lockC, runC, waitC *CallInfo
-		for _, ci := range Calls(runGo) {
-			switch {
-			case ci.Method != nil && ci.Method.Name() == "Lock" && strings.HasSuffix(qualObj(ci.Method), "(SharedMutex).Lock"):
-				lockC = ci
-			case ci.Method != nil && ci.Method.Name() == "Run" && strings.HasSuffix(qualObj(ci.Method), "(Sandbox).Run"):
-				runC = ci
-			case ci.Static != nil && ci.Static.Name() == "waitForTasks":
-				waitC = ci
+		// the lock/body section may live in a private helper called from runGo
+		find := func(g *ssa.Function) (lockC, runC, waitC *CallInfo) {
+			for _, ci := range Calls(g) {
+				switch {
+				case ci.Method != nil && ci.Method.Name() == "Lock" && strings.HasSuffix(qualObj(ci.Method), "(SharedMutex).Lock"):
+					lockC = ci
+				case ci.Method != nil && ci.Method.Name() == "Run" && strings.HasSuffix(qualObj(ci.Method), "(Sandbox).Run"):
+					runC = ci
+				case ci.Static != nil && ci.Static.Name() == "waitForTasks":
+					waitC = ci
+				}
+			}
+			return
+		}
+		lockC, runC, waitC := find(runGo)
+		lockFn := runGo
+		var helperSite *CallInfo
+		if lockC == nil {
+			for _, ci := range Calls(runGo) {
+				if ci.Static != nil && ci.Static.Pkg == runGo.Pkg && ci.Kind == "call" {
+					if l, r, _ := find(ci.Static); l != nil && r != nil {
+						lockC, runC, lockFn, helperSite = l, r, ci.Static, ci
+					}
+				}
 			}
 		}
 		if lockC == nil || runC == nil || waitC == nil {
-			c.Bad("R4", "runner.(*Runner).runGo lock scope", runGo.Pos(), "cannot find SharedMutex.Lock / Sandbox.Run / waitForTasks in runGo; cannot certify")
+			c.Bad("R4", "runner.(*Runner).runGo lock scope", runGo.Pos(), "cannot find SharedMutex.Lock / Sandbox.Run / waitForTasks in runGo (or a private helper it calls); cannot certify")
 		} else {
 			ok := true
 			why := ""
 			if !dominates(lockC.Instr, runC.Instr) {
 				ok, why = false, "the body runs without the task's lock map being held"
 			}
-			// lock map argument comes from task.LockMap()
 			if os := Origins(lockC.Arg(0), FlowOpts{}); !hasOrigin(os, func(o Origin) bool { return o.Kind == "call" && strings.Contains(o.Name, ".LockMap#") }) {
 				ok, why = false, "the acquired map is not the task's lock map"
 			}
-			if !dominates(waitC.Instr, lockC.Instr) || reachableFrom(lockC.Instr, waitC.Instr) {
+			lockPoint := lockC.Instr
+			if helperSite != nil {
+				lockPoint = helperSite.Instr
+			}
+			if !dominates(waitC.Instr, lockPoint) || reachableFrom(lockPoint, waitC.Instr) {
 				ok, why = false, "the lock map is taken before (or while) waiting for prerequisite tasks: a task can hold resources its prerequisite needs — hold-and-wait deadlock"
 			}
 			lv := lockC.Value()
-			bad := MustPass(runGo, lockC.Instr, func(in ssa.Instruction) bool {
+			bad := MustPass(lockFn, lockC.Instr, func(in ssa.Instruction) bool {
 				ci := callInfo(in, nil, 0)
 				return ci != nil && ci.Method != nil && ci.Method.Name() == "Unlock" && resolve(ci.Recv()) == lv
 			})
@@ -452,4 +470,110 @@ func closureArg(ci *CallInfo) *ssa.Function {
 		}
 	}
 	return nil
+}
+
+// builtInOrderFrom: slice `walked` is filled only by append calls that run
+// inside an ascending walk over `sorted`, each appended element being built
+// from the element of `sorted` visited in that iteration (so `walked` inherits
+// the order of `sorted`).
+func builtInOrderFrom(f *ssa.Function, walked, sorted ssa.Value) bool {
+	var appends []*ssa.Call
+	eachInstr(f, func(_ *ssa.BasicBlock, _ int, in ssa.Instruction) {
+		call, ok := in.(*ssa.Call)
+		if !ok {
+			return
+		}
+		if b, isB := call.Call.Value.(*ssa.Builtin); !isB || b.Name() != "append" {
+			return
+		}
+		if !types.Identical(call.Type(), walked.Type()) {
+			return
+		}
+		// does this append feed the walked slice?
+		if derivesFrom(walked, call, 0) || feedsPhiOf(call, walked) {
+			appends = append(appends, call)
+		}
+	})
+	if len(appends) == 0 {
+		return false
+	}
+	for _, a := range appends {
+		if len(a.Call.Args) != 2 {
+			return false
+		}
+		sl, ok := a.Call.Args[1].(*ssa.Slice)
+		if !ok {
+			return false
+		}
+		okElem := false
+		for _, e := range arrayElems(sl.X) {
+			// the element (a struct built in a local) carries a value read from sorted[ascending]
+			var vals []ssa.Value
+			vals = append(vals, e)
+			if ld, isLd := e.(*ssa.UnOp); isLd {
+				if al, isA := ld.X.(*ssa.Alloc); isA {
+					for _, r := range *al.Referrers() {
+						if fa, isFA := r.(*ssa.FieldAddr); isFA {
+							for _, rr := range *fa.Referrers() {
+								if st, isSt := rr.(*ssa.Store); isSt && st.Addr == ssa.Value(fa) {
+									vals = append(vals, st.Val)
+								}
+							}
+						}
+					}
+				}
+			}
+			for _, v := range vals {
+				if ia := elementSource(v); ia != nil && (ia.X == sorted || keyP(ia.X) == keyP(sorted)) && ascendingIndex(ia.Index) {
+					okElem = true
+				}
+			}
+		}
+		if !okElem {
+			return false
+		}
+	}
+	// no direct element writes into walked
+	bad := false
+	eachInstr(f, func(_ *ssa.BasicBlock, _ int, in ssa.Instruction) {
+		if st, ok := in.(*ssa.Store); ok {
+			if ia := elementAddr(st.Addr); ia != nil && (ia.X == walked || keyP(ia.X) == keyP(walked)) {
+				bad = true
+			}
+		}
+	})
+	return !bad
+}
+
+// feedsPhiOf: call result reaches v through phi nodes.
+func feedsPhiOf(call *ssa.Call, v ssa.Value) bool {
+	seen := map[ssa.Value]bool{}
+	var rec func(x ssa.Value, d int) bool
+	rec = func(x ssa.Value, d int) bool {
+		if x == nil || seen[x] || d > 6 {
+			return false
+		}
+		seen[x] = true
+		if x == ssa.Value(call) {
+			return true
+		}
+		if p, ok := x.(*ssa.Phi); ok {
+			for _, e := range p.Edges {
+				if rec(e, d+1) {
+					return true
+				}
+			}
+		}
+		if u, ok := x.(*ssa.UnOp); ok {
+			if a, ok := u.X.(*ssa.Alloc); ok {
+				for _, r := range *a.Referrers() {
+					if st, ok := r.(*ssa.Store); ok && st.Addr == ssa.Value(a) && rec(st.Val, d+1) {
+						return true
+					}
+				}
+			}
+		}
+		return false
+	}
+	return rec(v, 0)
 }
